@@ -24,9 +24,22 @@ type Shape struct {
 	// and what hand-built plans look like): a selected __typename is then NOT
 	// validated and whatever string the subgraph sends is rendered.
 	Strip bool `json:"strip,omitempty"`
+	// RT: type-condition family only (Named == "TC"): the runtime types of the
+	// baseline, "owner,pet[,home]".
+	RT string `json:"rt,omitempty"`
+	// Opt: ResolvableOptions variant; "" = defaults, "vc" =
+	// ApolloCompatibilityValueCompletionInExtensions, "vc+tf" = that plus
+	// ApolloCompatibilityTruncateFloatValues.
+	Opt string `json:"opt,omitempty"`
 }
 
 func (s Shape) String() string {
+	if s.Named == "TC" {
+		return fmt.Sprintf("type conditions: age: %s | own=%s | ancestor layers=%s | runtime types=%s", strings.Replace(s.Wrap, "T", "Int", 1), s.Sel, s.Ctx, s.RT)
+	}
+	if s.Opt != "" {
+		return fmt.Sprintf("f: %s | ctx=%s | sel=%s | options=%s", s.fieldType(), s.Ctx, s.Sel, s.Opt)
+	}
 	if s.Strip {
 		return fmt.Sprintf("f: %s | ctx=%s | sel=%s | plan without PossibleTypes", s.fieldType(), s.Ctx, s.Sel)
 	}
@@ -133,6 +146,28 @@ func allShapes(maxDepth int) []Shape {
 	return out
 }
 
+// extraShapes: families added after the planner-made grid (appended, so the
+// canonical order of the grid is unchanged).
+func extraShapes(maxDepth int) []Shape {
+	out := tcShapes()
+	// the enum alphabet (and String / an interface as controls for the other
+	// kinds of reports) under the Apollo compatibility ResolvableOptions
+	for _, s := range allShapes(maxDepth) {
+		if s.Strip || s.Ctx == "ifacelist" {
+			continue
+		}
+		switch s.Named {
+		case "E", "String", "I", "Float":
+			s.Opt = "vc"
+			if s.Named == "Float" {
+				s.Opt = "vc+tf"
+			}
+			out = append(out, s)
+		}
+	}
+	return out
+}
+
 // ---- oracle type tree
 
 type nodeKind int
@@ -154,8 +189,11 @@ type tnode struct {
 	// anyTypename: the plan does not restrict the runtime type name of this
 	// (concrete) object; a selected __typename renders the subgraph's string
 	anyTypename bool
-	fragOn      string // the whole selection is wrapped in `... on <fragOn> { }`
-	fields      []tfield
+	fragOn      string
+	// selection-set based node (type-condition family, see tc_test.go)
+	sels   []selItem
+	merged map[string][]tfield // the whole selection is wrapped in `... on <fragOn> { }`
+	fields []tfield
 }
 
 type tfield struct {
@@ -180,7 +218,7 @@ func (n *tnode) kindName() string {
 }
 
 func (n *tnode) hasField(key string) bool {
-	for _, f := range n.fields {
+	for _, f := range n.anyFields() {
 		if f.key == key {
 			return true
 		}
@@ -199,6 +237,9 @@ func (n *tnode) isPossible(t string) bool {
 
 // fieldsFor returns the selected fields for runtime type rt.
 func (n *tnode) fieldsFor(rt string) []tfield {
+	if n.sels != nil {
+		return n.selFields(rt)
+	}
 	var out []tfield
 	for _, f := range n.fields {
 		if f.on == nil {
@@ -296,6 +337,9 @@ func wrapNode(wrap string, named *tnode) *tnode {
 
 // tree builds the oracle's type tree of the whole response (root = Query).
 func (s Shape) tree() *tnode {
+	if s.Named == "TC" {
+		return s.tcTree()
+	}
 	t := s.buildTree()
 	if s.Strip {
 		var mark func(n *tnode)
@@ -373,6 +417,9 @@ func (s Shape) parentType() string {
 
 // sdl is the client schema == the (single) subgraph schema.
 func (s Shape) sdl() string {
+	if s.Named == "TC" {
+		return s.tcSDL()
+	}
 	var b strings.Builder
 	b.WriteString("directive @inaccessible on ENUM_VALUE | OBJECT | FIELD_DEFINITION\n")
 	b.WriteString("scalar J\nenum E { A B H @inaccessible }\n")
@@ -393,6 +440,9 @@ func (s Shape) sdl() string {
 
 // query prints the selection of the type tree.
 func (s Shape) query() string {
+	if s.Named == "TC" {
+		return s.tcQuery()
+	}
 	var b strings.Builder
 	var sel func(n *tnode)
 	sel = func(n *tnode) {
